@@ -662,7 +662,10 @@ class Interp:
         cur = self.ev(ast.Name(id=s.target.id, ctx=ast.Load(), lineno=s.lineno, col_offset=0), st)
         r = self.ev(s.value, st)
         if hasattr(cur, "pyvc_inplace"):
-            cur.pyvc_inplace(self, st, type(s.op).__name__, r, s.lineno)
+            done = cur.pyvc_inplace(self, st, type(s.op).__name__, r, s.lineno)
+            if done is not None:           # the model performed the update itself (e.g. list += segment)
+                st.env[s.target.id] = done
+                return [st]
         with self._ctx(st):
             st.env[s.target.id] = _BIN[type(s.op)](cur, r)
         return [st]
